@@ -373,6 +373,55 @@ fn run_uis(prog: &Prog, schedule: Vec<usize>, random: bool, seed: u64) -> Outcom
 
 // ---------------------------------------------------------------------------------------------
 // RobustUniqueIndexSet (C09): owner id of thread i is 100 + i
+// ---------------------------------------------------------------------------------------------
+// BumpAllocator under concurrency (C15): 2..3 threads allocate from one allocator
+fn gen_bump_prog(rng: &mut Rng) -> Prog {
+    let size = *rng.pick(&[16usize, 32, 48, 64]);
+    let shift = *rng.pick(&[0usize, 1, 4, 8]);
+    let mut threads = vec![];
+    for _ in 0..rng.range(2, 3) {
+        let mut ops = vec![];
+        for _ in 0..rng.range(1, 3) {
+            ops.push(format!("alloc {} {}", rng.pick(&[1usize, 3, 8, 12, 16, 24, 32]), rng.pick(&[1usize, 2, 4, 8, 16])));
+        }
+        threads.push(ops);
+    }
+    Prog { header: format!("bump size={size} start={shift}"), threads }
+}
+fn run_bump(prog: &Prog, schedule: Vec<usize>, random: bool, seed: u64) -> Outcome {
+    use iceoryx2_bb_elementary::bump_allocator::BumpAllocator;
+    use iceoryx2_bb_elementary_traits::allocator::{Allocate, AllocationError};
+    let size = hget(&prog.header, "size");
+    let shift = hget(&prog.header, "start");
+    // memory aligned to 64 so that `start` = shift exactly modulo every alignment used
+    let layout = std::alloc::Layout::from_size_align(size + 128, 64).unwrap();
+    let mem = unsafe { std::alloc::alloc(layout) };
+    let start = unsafe { mem.add(shift) };
+    let a = Arc::new(Shared::new(BumpAllocator::new(core::ptr::NonNull::new(start).unwrap(), size)));
+    let r = (a.get() as *const BumpAllocator as usize, std::mem::size_of::<BumpAllocator>());
+    let mut bodies: Vec<Box<dyn FnOnce(usize) + Send>> = vec![];
+    for ops in prog.threads.clone() {
+        let a = a.clone();
+        let start = start as usize;
+        bodies.push(Box::new(move |tid| {
+            for op in ops {
+                let t: Vec<&str> = op.split(' ').collect();
+                let l = std::alloc::Layout::from_size_align(t[1].parse().unwrap(), t[2].parse().unwrap()).unwrap();
+                let r = match a.get().allocate(l) {
+                    Ok(p) => format!("ok:{}", p.as_ptr() as usize - start),
+                    Err(AllocationError::OutOfMemory) => "err:OutOfMemory".into(),
+                    Err(AllocationError::SizeIsZero) => "err:SizeIsZero".into(),
+                    Err(e) => format!("err:{e:?}"),
+                };
+                sched::record(tid, format!("ret alloc {r}"));
+            }
+        }));
+    }
+    let o = sched::execute(bodies, schedule, random, seed, vec![r]);
+    unsafe { std::alloc::dealloc(mem, layout) };
+    o
+}
+
 /// C04: one thread (a process) dies after a random number of atomic steps, wherever that is; the others
 /// get a recovery of its owner id appended (they skip it while the owner is alive)
 fn with_fuse(mut p: Prog, rng: &mut Rng, name: &str) -> Prog {
@@ -597,6 +646,7 @@ pub fn generate(component: &str, rng: &mut Rng) -> Prog {
     match component {
         "event" => crate::event::generate(rng),
         "container" => gen_container_prog(rng),
+        "bump" => gen_bump_prog(rng),
         "containerx" => with_fuse(gen_container_prog(rng), rng, "containerx"),
         "ruisx" => with_fuse(gen_ruis_prog(rng), rng, "ruisx"),
         "ruis" => gen_ruis_prog(rng),
@@ -617,6 +667,7 @@ pub fn run(component: &str, prog: &Prog, schedule: Vec<usize>, random: bool, see
         "conn" | "conn-misuse" => run_conn(prog, schedule, random, seed),
         "uis" => run_uis(prog, schedule, random, seed),
         "ruis" | "ruisx" => run_ruis(prog, schedule, random, seed),
+        "bump" => run_bump(prog, schedule, random, seed),
         "container" | "containerx" => match hget(&prog.header, "width") {
             1 => run_container::<1>(prog, schedule, random, seed),
             2 => run_container::<2>(prog, schedule, random, seed),
